@@ -188,6 +188,7 @@ def grammar_part(prog, R):
     else:
         R.ob("ANCHOR", "TokenSet::contains", False)
     is_joint_guard(prog, R)
+    composite_jointness(prog, R, "C01.6-composite-jointness")
     return G
 
 
@@ -247,6 +248,49 @@ def is_joint_guard(prog, R, rule="C01.6-is_joint-guarded"):
                     okk, why = True, f"K = {show(k)}"
             R.ob(rule, key, okk, t["at"], why)
     R.floor("is_joint call sites", n, 3)
+
+
+def composite_jointness(prog, R, rule):
+    """A composite token of K raw tokens is recognised iff the K kinds match and the first K-1 raw tokens are each
+    joint to their successor: on the accepting path of at_compositeK, kind() is asked at offsets 0..K-1 and
+    is_joint() at exactly the offsets 0..K-2 (relative to pos + n)."""
+    from sym import SymExec, show, deep_strip
+
+    def offset(t):
+        t = deep_strip(t)
+        # ((self.pos + n) + c) -> c ; (self.pos + n) -> 0
+        if isinstance(t, tuple) and t[0] == "field" and isinstance(t[1], tuple) and t[1][0] == "bin" and t[1][1] == "AddWithOverflow":
+            a, b_ = t[1][2], t[1][3]
+            if isinstance(b_, tuple) and b_[0] == "c":
+                inner = offset(a)
+                return None if inner is None else inner + b_[2]
+            if isinstance(b_, tuple) and b_[0] == "arg":
+                return 0
+        return None
+    n = 0
+    for K, name in ((2, "at_composite2"), (3, "at_composite3")):
+        b = prog.body(PP + "Parser::" + name)
+        if not b:
+            R.ob("ANCHOR", name, False)
+            continue
+        best = None
+        for p in SymExec(prog, b).paths():
+            if "__diverged__" in p.env:
+                continue
+            r = deep_strip(p.env.get(0))
+            if r == ("c", "bool", 0):
+                continue
+            best = p if best is None or len(p.calls) > len(best.calls) else best
+        if best is None:
+            R.ob(rule, name, False, b.at, "no accepting path found")
+            continue
+        n += 1
+        ko = sorted(offset(a[1]) if offset(a[1]) is not None else -1 for nm, a, bb in best.calls if nm.endswith("Input::kind"))
+        jo = sorted(offset(a[1]) if offset(a[1]) is not None else -1 for nm, a, bb in best.calls if nm.endswith("Input::is_joint"))
+        ok = ko == list(range(K)) and jo == list(range(K - 1))
+        R.ob(rule, name, ok, b.at, f"kinds at offsets {ko}, jointness at offsets {jo}" if ok else
+             f"accepting path asks kinds at offsets {ko} and jointness at offsets {jo}; a {K}-token composite needs jointness of offsets {list(range(K - 1))}: otherwise operator characters separated by trivia are glued, or a composite followed by trivia is not recognised")
+    R.floor("composite lookahead functions", n, 2)
 
 
 def run(prog, R):
